@@ -697,6 +697,31 @@ def r19_4(ctx, counts: dict[str, int]) -> RuleResult:
         res.fail(finding('R19.4', dfx, dfx.node, 'defuse_xml body',
                          'defuse_xml no longer runs the text through SafeExpatParser or '
                          'swallows the forbidding exception'))
+    # every return of defuse_xml has passed the scan: no text is handed back unscanned because a
+    # cheaper test (a regex on the prolog, a substring search) found no DOCTYPE
+    from ..engine.cfg import CFG as _CFG
+    cfg_d = _CFG(dfx.node)
+    scans = [nd for nd in cfg_d.nodes if nd.ast is not None and any(
+        isinstance(c, ast.Call) and dotted(c.func) == 'pulldom.parse' for e in nd.exprs()
+        for c in ast.walk(e))]
+    rets = [nd for nd in cfg_d.nodes if nd.kind == 'stmt' and isinstance(nd.ast, ast.Return)]
+    if not scans or not rets:
+        raise AnalysisError('defuse_xml: the scan or the returns were not located in the CFG')
+    for r_ in rets:
+        path = cfg_d.path_avoiding([cfg_d.entry], lambda q: q is r_, lambda q: q in scans,
+                                   skip_start=False)
+        res.instances.append(f'defuse_xml: `{stmt_text(r_.ast)[:40]}` (L{r_.ast.lineno}) is '
+                             f'reached only through the SAX scan: {path is None}')
+        if path is None:
+            res.ok()
+        else:
+            res.fail(finding('R19.4', dfx, r_.ast, 'defuse_xml returns unscanned text',
+                             f'`{stmt_text(r_.ast)[:40]}` can be reached without running the '
+                             f'text through the entity-forbidding parser '
+                             f'({cfg_d.fmt_path(path)[:4]}): a pre-test that looks for the '
+                             f'DOCTYPE misses forms the XML parser accepts (a comment or a '
+                             f'processing instruction before it, a byte order mark, another '
+                             f'encoding) and the entity declarations are then expanded'))
     return res
 
 
